@@ -1615,8 +1615,9 @@ def _t_eval(target, _t, scope):
         elif op == '(':
             args, kwargs = arg
             scope[Path] += t_path[2:i+2:2]
+            # the arguments were evaluated above: Call takes them as they are
             cur = scope[glom](
-                target, Call(cur, args, kwargs), scope)
+                target, Call(cur, Val(args), Val(kwargs)), scope)
             # call with target rather than cur,
             # because it is probably more intuitive
             # if args to the call "reset" their path
